@@ -4,12 +4,12 @@ CONSTANTS
  GateSize = 2
  MaxFailures = 2
  MaxAttempts = 3
- Variant = "commit"
+ Variant = "copy"
  CleanSet = {}
  UseCache = TRUE
- ForeignCached = {}
- PublishEarly = FALSE
+ ForeignCached = {1}
+ PublishEarly = TRUE
  CacheKeyIgnoresPrefix = FALSE
  WithReader = TRUE
-INVARIANTS PublishedObjectsAreFrozen
+INVARIANTS CacheImpliesStored
 CHECK_DEADLOCK FALSE
